@@ -53,16 +53,22 @@ META = {
         "original text subtree unless the implicit-text branch was taken, and that no path inserts a reference whose only "
         "text is the constant \"\". Helpers that warn are summarised (uniform count) or inlined with the caller's facts "
         "(two levels). Each XREF_MISSING log_warning interpolates its own target. log_warning itself leaves without emitting "
-        "only after a nitpick_ignore / nitpick_ignore_regex match (followed through flags and one helper level). In the "
-        "renderer a failed path2doc lookup that gives up to render_link_url passes exactly one XREF_MISSING warning and paths "
-        "that create a wrap node pass none. "
+        "only after a nitpick_ignore / nitpick_ignore_regex match (followed through flags and one helper level), and the "
+        "patterns of nitpick_ignore_regex entries are applied to the whole type / target (re.fullmatch, the operations found "
+        "in the installed Sphinx ReferencesResolver source are the oracle). In the renderer a failed lookup that gives up to "
+        "render_link_url - path2doc answered None, the lookup (relfn2path/path2doc) raised inside a try whose handler is "
+        "entered, or the destination contains a character no path can contain (NUL) - passes exactly one XREF_MISSING "
+        "warning and paths that create a wrap node pass none. "
         "R4 roles: at every make_refnode / docname_join / Domain.resolve_(any_)xref call the 'from' slot derives from refdoc "
         "(or the current docname) and the 'to'/'target' slot from reftarget or a registry docname, traced through locals, "
-        "tuple unpacking and parameters over the call graph; the refdoc a writer stores is the current docname. "
+        "tuple unpacking and parameters over the call graph; a docname computed by hand (posixpath/os.path join + normpath "
+        "instead of sphinx.util.docname_join) must strip or test a leading '/' of the target (root-relative destinations); "
+        "the refdoc a writer stores is the current docname. "
         "R5 writer/reader agreement: every attribute the resolver *subscripts* on a 'myst' pending_xref (not .get, not under "
         "a statement- or expression-level `'k' in node` guard), split by the refdomain == 'doc' context, is set by every "
-        "constructor call with the matching refdomain (keyword dict literals expanded); for refdomain='doc' reftarget derives "
-        "from path2doc and reftargetid is the part after '#' (split / partition / star-target idioms, NamedTuple- or "
+        "constructor call with the matching refdomain (keyword dict literals expanded); for refdomain='doc' every binding of "
+        "reftarget that can reach the constructor (falsy constants are excluded when a truthiness test of the name dominates "
+        "it; a, b = x, y is read element-wise) comes out of path2doc, and reftargetid is the part after '#' (split / partition / star-target idioms, NamedTuple- or "
         "tuple-returning split helpers followed); relfn2path receives the part before '#' and the current docname; a non-doc "
         "reference keeps the whole destination; every href-derived value that reaches reftarget / reftargetid / relfn2path "
         "has passed normalizeLinkText (flow-sensitive reaching definitions) because markdown-it percent-encodes hrefs while "
@@ -86,7 +92,8 @@ META = {
         "values themselves (C10); the behaviour of other domains' resolve_any_xref and of intersphinx inventories; the effect "
         "of the relative-docs include option on destinations; the wording of renderer-side warnings; state kept across "
         "builds other than the suppression paths of log_warning (C15); an unguarded constant slice of a destination is "
-        "listed, not judged (R6)"
+        "listed, not judged (R6); whether a library call can raise on a given destination (C01) - R3 only requires the "
+        "warning on the paths where the code already treats the lookup as failed"
     ),
     "trusted_base": [
         "CPython ast",
@@ -95,8 +102,10 @@ META = {
         "Domain.resolve_any_xref(env, fromdocname, builder, target, node, contnode), Domain.resolve_xref(env, fromdocname, builder, typ, target, node, contnode), "
         "BuildEnvironment.path2doc returns None for a non-source file, relfn2path(filename, docname)",
         "Sphinx stores std-domain label names lower-cased (docutils-normalised names) and skips non-explicit names in StandardDomain.process_doc",
+        "sphinx/transforms/post_transforms/__init__.py as installed (parsed, not imported): regex operations applied to nitpick_ignore_regex entries",
+        "sphinx.util.docname_join treats a target with a leading '/' as relative to the source root",
         "markdown-it's normalizeLink percent-encodes hrefs; normalizeLinkText decodes them",
-        "tables in the module: NULLABLE_EXTERNALS, NODE_CONSUMERS, FILE_TESTS / EXIST_TESTS, ROLE_SITES",
+        "tables in the module: NULLABLE_EXTERNALS, RAISING_LOOKUPS, IMPOSSIBLE_PATH_CHARS, NODE_CONSUMERS, FILE_TESTS / EXIST_TESTS, ROLE_SITES",
     ],
     "assumptions": [
         "docutils Node objects are always truthy (so `not newnode` means `newnode is None`)",
@@ -123,6 +132,10 @@ NODE_CONSUMERS = {
     "isinstance": "builtin",
     "len": "builtin",
 }
+# characters that no path / docname can contain: a destination with one of them "cannot be resolved" by construction
+IMPOSSIBLE_PATH_CHARS = {"\x00"}
+# external lookups that answer "this cannot be a path" with an exception (one reason each)
+RAISING_LOOKUPS = {"relfn2path": "BuildEnvironment.relfn2path -> Path.resolve() raises ValueError on an embedded NUL"}
 MAX_PATHS = 20000
 
 
@@ -589,6 +602,15 @@ class Enumerator:
                 return True
         return False
 
+    @staticmethod
+    def _in_handler(n: ast.AST) -> bool:
+        x = parent(n)
+        while x is not None and not isinstance(x, (ast.FunctionDef, ast.AsyncFunctionDef, ast.Lambda)):
+            if isinstance(x, ast.ExceptHandler):
+                return True
+            x = parent(x)
+        return False
+
     def is_request_id(self, e: ast.AST | None, st: PState) -> bool:
         """The fragment as the link *asked* for it (node["reftargetid"]), as opposed to an id out of a registry."""
         pv = self.pv
@@ -705,6 +727,9 @@ class Enumerator:
             s.hollow = s.hollow - tested
             s.empty = s.empty - tested
         for e, pol in facts(test, outcome):
+            if pol and isinstance(e, ast.Compare) and len(e.ops) == 1 and isinstance(e.ops[0], ast.In) and isinstance(e.left, ast.Constant) and isinstance(e.left.value, str) and e.left.value and set(e.left.value) <= IMPOSSIBLE_PATH_CHARS:
+                s = s.copy()
+                s.marks = s.marks | {f"unusable:{unparse(e)}"}  # e.g. NUL: can never name a file or document
             mem = self._membership(e)
             if mem is not None and not any(k[0] == mem[0] for k in s.known):
                 s = s.copy()
@@ -777,6 +802,8 @@ class Enumerator:
                         s.alias[tg.id] = (inner, rd)
                 if isinstance(inner, ast.Constant) and inner.value is None:
                     s.nulls[tg.id] = "none"
+                    if tg.id in self.null_tested and self._in_handler(n):
+                        s.marks = s.marks | {f"null:{tg.id}"}  # the lookup raised: a failed lookup
                 elif isinstance(inner, ast.Call) and self.is_attempt(inner):
                     a, b = s, s.copy()
                     a.nulls[tg.id] = "none"
@@ -800,6 +827,12 @@ class Enumerator:
                         s.empty = s.empty - {el.id}
                         s.hollow = s.hollow - {el.id}
                         s.unver = s.unver - {el.id}
+                if pairwise:
+                    for el, v in zip(tg.elts, val.elts):
+                        if isinstance(el, ast.Name) and isinstance(v, ast.Constant) and v.value is None:
+                            s.nulls[el.id] = "none"
+                            if el.id in self.null_tested and self._in_handler(n):
+                                s.marks = s.marks | {f"null:{el.id}"}  # the lookup raised: a failed lookup
                 if pairwise:
                     for el, v in zip(tg.elts, val.elts):
                         if isinstance(el, ast.Name) and self.is_request_id(v, before):
@@ -992,7 +1025,12 @@ class Enumerator:
             # exceptional edges: the statement did not complete
             for sc in succs:
                 if isinstance(sc, tuple) and sc[0] in ("H", "FIN") and not (isinstance(n, tuple)):
-                    stack.append((sc, pre, visits))
+                    pre_h = pre
+                    if self.pv is None and sc[0] == "H" and isinstance(n, ast.AST) and any(self.is_attempt(c) or (isinstance(c.func, ast.Attribute) and c.func.attr in RAISING_LOOKUPS) for c in node_calls(n)):
+                        # renderer: the lookup itself raised (e.g. relfn2path on an unusable path) - a failed lookup
+                        pre_h = pre.copy()
+                        pre_h.marks = pre_h.marks | {f"raised:{short(n, 40)}"}
+                    stack.append((sc, pre_h, visits))
             for o in outs:
                 allowed = None
                 if isinstance(n, (ast.If, ast.While)):
@@ -1208,6 +1246,69 @@ def _mentions_nitpick(corpus: Corpus, fi: FunctionInfo, e: ast.AST, depth: int =
     return False
 
 
+def _nitpick_regex_ops(nodes) -> list[tuple[str, str, ast.Call]]:
+    """(part, regex operation, call) for every regex applied to an element of a nitpick_ignore_regex entry;
+    part is 'type' / 'target' (first / second element of the iterated pair) or '?'."""
+    out = []
+    pairs: dict[str, str] = {}
+    nodes = list(nodes)
+    for n in nodes:
+        if isinstance(n, (ast.For, ast.comprehension)) and any(isinstance(a, ast.Attribute) and a.attr == "nitpick_ignore_regex" for a in ast.walk(n.iter)):
+            tg = n.target
+            if isinstance(tg, ast.Tuple) and len(tg.elts) == 2 and all(isinstance(x, ast.Name) for x in tg.elts):
+                pairs[tg.elts[0].id] = "type"
+                pairs[tg.elts[1].id] = "target"
+            elif isinstance(tg, ast.Name):
+                pairs[tg.id] = "?"
+    for n in nodes:
+        if not (isinstance(n, ast.Call) and isinstance(n.func, ast.Attribute) and n.func.attr in ("match", "fullmatch", "search", "findall", "finditer", "sub", "split")):
+            continue
+        pat = None
+        recv = n.func.value
+        if isinstance(recv, ast.Name) and recv.id == "re" and n.args:
+            pat = n.args[0]
+        elif isinstance(recv, ast.Call) and dotted(recv.func) in ("re.compile", "compile") and recv.args:
+            pat = recv.args[0]
+        if pat is None:
+            continue
+        names = [x.id for x in ast.walk(pat) if isinstance(x, ast.Name) and x.id in pairs]
+        if names:
+            out.append((pairs[names[0]], n.func.attr, n))
+    return out
+
+
+def _regex_anchoring(corpus: Corpus, rep: Report) -> None:
+    """nitpick_ignore_regex entries are matched against the whole type and the whole target (re.fullmatch), as Sphinx's
+    own ReferencesResolver does (read from the installed sphinx source): a prefix/substring match silences more
+    unresolved destinations than the configuration names."""
+    fi = corpus.func(RESOLVER + ".log_warning")
+    ops = _nitpick_regex_ops(fi.local_nodes())
+    # one level of helper (e.g. self._is_ignored(target))
+    for c in [x for x in fi.local_nodes() if isinstance(x, ast.Call)]:
+        callee = self_callee(corpus, fi, c)
+        if callee is not None and not callee.is_lambda:
+            ops += _nitpick_regex_ops(callee.local_nodes())
+    allowed = {"type": {"fullmatch"}, "target": {"fullmatch"}, "?": {"fullmatch"}}
+    try:
+        sib = corpus.sibling("sphinx/transforms/post_transforms/__init__.py")
+        rep.saw_sibling(sib.rel)
+        for part, op, _ in _nitpick_regex_ops(ast.walk(sib.tree)):
+            allowed.setdefault(part, set()).add(op)
+    except Exception:
+        pass  # oracle unavailable: the documented semantics (full match) stand
+    if not ops:
+        if any(isinstance(a, ast.Attribute) and a.attr == "nitpick_ignore_regex" for a in fi.local_nodes()):
+            rep.error("C12.R3", "log_warning reads nitpick_ignore_regex but no regex application on its entries was found")
+        return
+    for part, op, call in ops:
+        k = f"{RESOLVER.replace('sphinx_ext.', 'myst_parser.sphinx_ext.')}.log_warning|nitpick_ignore_regex {part} part|matched as a whole"
+        site = fi.module.site(call)
+        if op in allowed.get(part, {"fullmatch"}):
+            rep.ok("C12.R3", k, site, f"re.{op}")
+        else:
+            rep.violation("C12.R3", k, site, f"`{short(call, 60)}` applies the {part} pattern of a nitpick_ignore_regex entry with re.{op} (Sphinx: re.fullmatch): an ignore pattern then also silences every unresolved destination that merely starts with / contains a match, so such links lose their one xref_missing warning")
+
+
 def _emission_unless_ignored(corpus: Corpus, rep: Report) -> None:
     """log_warning: the only reason not to emit is a nitpick_ignore(_regex) match for this target.
     (A suppression that depends on anything else - a memo of earlier answers, a flag, the target being falsy -
@@ -1274,6 +1375,7 @@ def r3_exactly_one_warning(corpus: Corpus, rep: Report, tier: str):
         _judge_paths(rep, "C12.R3", callee, en2, res2, text_rule=True, failing_of=cls_of, label="resolver")
         rep.saw_function(callee.fq)
     _emission_unless_ignored(corpus, rep)
+    _regex_anchoring(corpus, rep)
     # every XREF_MISSING log_warning in the resolver names its target
     n_w = 0
     for m in sh.cls.methods.values():
@@ -1630,6 +1732,22 @@ class DocKinds:
             full = m.resolve(dotted(e.func) or "")
             if full.endswith("docname_join"):
                 return {"TO"}
+            if full in ("posixpath.dirname", "os.path.dirname") and e.args:
+                return self.kind(e.args[0], fi, depth + 1)
+            if full in ("posixpath.normpath", "os.path.normpath", "posixpath.join", "os.path.join"):
+                # hand-rolled docname arithmetic instead of sphinx.util.docname_join
+                subk: set[str] = set()
+                for a in e.args:
+                    subk |= self.kind(a, fi, depth + 1)
+                subk -= {"CONST"}
+                if "?" in subk or not subk:
+                    return {"?"}
+                if subk & {"TARGET", "TO", "TO-NOROOT"}:
+                    if "TO-NOROOT" in subk or not self._root_handled(e, fi):
+                        # an enclosing call may still strip the leading separator
+                        return {"TO-NOROOT"} if not self._stripped_above(e) else {"TO"}
+                    return {"TO"}
+                return subk
             if dotted(e.func) in ("cast", "typing.cast", "t.cast") and len(e.args) == 2:
                 return self.kind(e.args[1], fi, depth + 1)
             f = e.func
@@ -1645,7 +1763,17 @@ class DocKinds:
                 return {"TO"}
             if isinstance(f, ast.Attribute) and f.attr in ("lower", "strip") and not e.args:
                 return self.kind(f.value, fi, depth + 1)
+            if isinstance(f, ast.Attribute) and f.attr in ("replace", "lstrip", "removeprefix", "rstrip", "removesuffix"):
+                kd = self.kind(f.value, fi, depth + 1)
+                if f.attr in ("lstrip", "removeprefix") and e.args and self._is_sep(e.args[0], fi):
+                    kd = {("TO" if x == "TO-NOROOT" else x) for x in kd}
+                return kd
             return {"?"}
+        if isinstance(e, ast.Subscript) and isinstance(e.slice, ast.Slice):
+            kd = self.kind(e.value, fi, depth + 1)
+            if isinstance(e.slice.lower, ast.Constant) and e.slice.lower.value == 1 and e.slice.upper is None:
+                kd = {("TO" if x == "TO-NOROOT" else x) for x in kd}  # [1:] drops the leading separator
+            return kd
         if isinstance(e, ast.Subscript) and isinstance(e.slice, ast.Constant):
             key = e.slice.value
             if key == "refdoc":
@@ -1665,6 +1793,15 @@ class DocKinds:
             for v in e.values:
                 out |= self.kind(v, fi, depth + 1)
             return out
+        if isinstance(e, ast.BinOp) and isinstance(e.op, ast.Add):
+            out = (self.kind(e.left, fi, depth + 1) | self.kind(e.right, fi, depth + 1)) - {"CONST"}
+            return out or {"CONST"}
+        if isinstance(e, ast.JoinedStr):
+            out = set()
+            for v in e.values:
+                if isinstance(v, ast.FormattedValue):
+                    out |= self.kind(v.value, fi, depth + 1)
+            return out or {"CONST"}
         if isinstance(e, ast.IfExp):
             return self.kind(e.body, fi, depth + 1) | self.kind(e.orelse, fi, depth + 1)
         if isinstance(e, ast.Name):
@@ -1682,6 +1819,38 @@ class DocKinds:
                 return {"?"}
             return out
         return {"?"}
+
+    @staticmethod
+    def _is_sep(a: ast.expr, fi: FunctionInfo) -> bool:
+        if isinstance(a, ast.Constant) and a.value == "/":
+            return True
+        d = dotted(a) or ""
+        return d.split(".")[-1] in ("SEP", "sep")
+
+    def _stripped_above(self, e: ast.AST) -> bool:
+        """The computed path is immediately passed through `[1:]` / lstrip('/') / removeprefix('/')."""
+        child, p = e, parent(e)
+        while isinstance(p, (ast.Call, ast.Attribute, ast.Subscript)):
+            if isinstance(p, ast.Subscript) and p.value is child and isinstance(p.slice, ast.Slice) and isinstance(p.slice.lower, ast.Constant) and p.slice.lower.value == 1:
+                return True
+            if isinstance(p, ast.Call) and isinstance(p.func, ast.Attribute) and p.func.value is child and False:
+                return True
+            if isinstance(p, ast.Attribute) and p.value is child and p.attr in ("lstrip", "removeprefix"):
+                gp = parent(p)
+                if isinstance(gp, ast.Call) and gp.args and self._is_sep(gp.args[0], None):
+                    return True
+            child, p = p, parent(p)
+        return False
+
+    def _root_handled(self, e: ast.AST, fi: FunctionInfo) -> bool:
+        """The code around a hand-rolled join treats a target with a leading '/' (relative to the source root):
+        either the join prefixes the base with the separator (as docname_join does, result then stripped), or a
+        startswith('/') test on the target splits the cases."""
+        for n in fi.local_nodes():
+            if isinstance(n, ast.Call) and isinstance(n.func, ast.Attribute) and n.func.attr == "startswith" and n.args and self._is_sep(n.args[0], fi):
+                if self.kind(n.func.value, fi, 6) & {"TARGET"}:
+                    return True
+        return False
 
     def _param_kind(self, owner: FunctionInfo, name: str, depth: int) -> set[str]:
         out: set[str] = set()
@@ -1753,6 +1922,13 @@ def r4_from_to_roles(corpus: Corpus, rep: Report, tier: str):
                 acc = SLOT_ACCEPT[slot]
                 if "?" in kinds:
                     rep.error("C12.R4", f"{m.qualname}: cannot trace `{unparse(arg)}` in the {slot} slot of {name} (kinds {sorted(kinds)})")
+                elif "TO-NOROOT" in kinds:
+                    rep.violation(
+                        "C12.R4",
+                        k,
+                        site,
+                        f"`{unparse(arg)}` is computed from the raw link target with posixpath/os.path join+normpath instead of sphinx.util.docname_join, and nothing strips or tests a leading '/': a root-relative destination such as `[x](/folder/doc)` keeps its leading separator, is never found in env.all_docs and no longer resolves relative to the source root",
+                    )
                 elif kinds <= acc | {"CONST"} and kinds & acc:
                     rep.ok("C12.R4", k, site, f"{unparse(arg)}: {sorted(kinds)}")
                 else:
@@ -2098,7 +2274,7 @@ def _hash_part(fi: FunctionInfo, e: ast.expr | None, depth: int = 0, busy: froze
         subs: set[str] = set()
         for a in list(e.args) + [k.value for k in e.keywords]:
             subs |= _hash_part(fi, a, depth + 1, busy)
-        if isinstance(e.func, ast.Attribute) and not isinstance(e.func.value, ast.Name):
+        if isinstance(e.func, ast.Attribute) and not isinstance(e.func.value, ast.Name) and (dotted(e.func.value) or "").split(".")[0] not in ("self", "cls", "os", "posixpath"):
             subs |= _hash_part(fi, e.func.value, depth + 1, busy)
         elif isinstance(e.func, ast.Attribute) and isinstance(e.func.value, ast.Name) and assignments_to(fi, e.func.value.id):
             subs |= _hash_part(fi, e.func.value, depth + 1, busy)
@@ -2109,16 +2285,39 @@ def _hash_part(fi: FunctionInfo, e: ast.expr | None, depth: int = 0, busy: froze
     return {"?"}
 
 
-def _derives_from_call(fi: FunctionInfo, e: ast.expr, attr: str, depth: int = 0) -> bool:
+def _derives_from_call(fi: FunctionInfo, e: ast.expr, attr: str, depth: int = 0, truthy: frozenset = frozenset()) -> bool:
+    """Every binding of the value comes out of a call of ``attr``.  Names in ``truthy`` are known to be truthy at
+    the use, so their falsy-constant bindings (`x = None` in an except branch, an initialiser) cannot reach it."""
     if depth > 6:
         return False
     for n in ast.walk(e):
         if isinstance(n, ast.Call) and isinstance(n.func, ast.Attribute) and n.func.attr == attr:
             return True
     if isinstance(e, ast.Name):
-        defs = assignments_to(fi, e.id)
-        return bool(defs) and all(_derives_from_call(fi, v, attr, depth + 1) for _, v, _ in defs)
+        vals = []
+        for _, v, pos in assignments_to(fi, e.id):
+            if isinstance(pos, int) and isinstance(v, (ast.Tuple, ast.List)) and pos < len(v.elts) and not any(isinstance(x, ast.Starred) for x in v.elts):
+                v = v.elts[pos]  # a, b = x, y
+            if e.id in truthy and isinstance(v, ast.Constant) and not v.value:
+                continue
+            vals.append(v)
+        return bool(vals) and all(_derives_from_call(fi, v, attr, depth + 1, truthy) for v in vals)
     return False
+
+
+def _truthy_names_at(fi: FunctionInfo, node: ast.AST) -> frozenset:
+    cfg = get_cfg(fi)
+    try:
+        gs = all_guards(cfg, node)
+    except Unsupported:
+        return frozenset()
+    out = set()
+    for t, pol in gs:
+        if pol and isinstance(t, ast.Name):
+            out.add(t.id)
+        elif pol and isinstance(t, ast.Compare) and len(t.ops) == 1 and isinstance(t.ops[0], ast.IsNot) and isinstance(t.left, ast.Name) and isinstance(t.comparators[0], ast.Constant) and t.comparators[0].value is None:
+            out.add(t.left.id)
+    return frozenset(out)
 
 
 @rule("C12.R5")
@@ -2150,7 +2349,7 @@ def r5_writer_reader_agreement(corpus: Corpus, rep: Report, tier: str):
             k = f"{fi.fq}|pending_xref(refdomain='doc')|reftarget is the docname from path2doc"
             v = keys.get("reftarget")
             if v is not None:
-                if _derives_from_call(fi, v, "path2doc"):
+                if _derives_from_call(fi, v, "path2doc", truthy=_truthy_names_at(fi, call)):
                     rep.ok("C12.R5", k, fi.module.site(call), unparse(v))
                 else:
                     rep.violation("C12.R5", k, fi.module.site(call), f"reftarget=`{unparse(v)}` does not derive from env.path2doc(...): the resolver looks it up in env.all_docs, which is keyed by docname")
@@ -2905,4 +3104,36 @@ def mutants(corpus: Corpus):
     f = rf.func("MystReferenceResolver._resolve_ref_nested")
     c = find_node(f, lambda n: isinstance(n, ast.Call) and isinstance(n.func, ast.Attribute) and n.func.attr == "lower")
     add("c12-label-lookup-not-lowered", "C12.R9", rf, c, unparse(c.func.value) if c is not None else "", expect="lower-cased key")
+    # --- round-4 seed classes ---
+    # R4: hand-rolled docname arithmetic that forgets root-relative targets
+    f = rf.func("MystReferenceResolver._resolve_doc_nested")
+    c = find_node(f, lambda n: isinstance(n, ast.Call) and unparse(n.func) == "docname_join" and len(n.args) == 2)
+    if c is not None:
+        a0, a1 = (ast.get_source_segment(rf.src, x) for x in c.args)
+        m1 = splice(rf.src, c, f"posixpath.normpath(posixpath.join(posixpath.dirname({a0}), {a1}))").replace("import re\n", "import posixpath\nimport re\n", 1)
+        out.append(Mutant("c12-docname-join-hand-rolled", "C12.R4", rf.rel, m1, expect="_resolve_doc_nested"))
+        m2 = splice(rf.src, c, f'os.path.normpath(os.path.join(os.path.dirname({a0}), {a1})).replace(os.sep, "/")').replace("import re\n", "import os\nimport re\n", 1)
+        out.append(Mutant("c12-docname-join-os-path", "C12.R4", rf.rel, m2, expect="_resolve_doc_nested"))
+    else:
+        out.append(("c12-docname-join-hand-rolled", "docname_join call not found"))
+    # R3: nitpick_ignore_regex entries are matched as a whole
+    f = rf.func("MystReferenceResolver.log_warning")
+    ops = _nitpick_regex_ops(f.local_nodes())
+    tgt = next((c_ for part, op, c_ in ops if part == "target" and op == "fullmatch"), None)
+    typ = next((c_ for part, op, c_ in ops if part == "type" and op == "fullmatch"), None)
+    add("c12-nitpick-target-prefix-match", "C12.R3", rf, tgt.func if tgt is not None else None, "re.match", expect="target part")
+    add("c12-nitpick-type-substring-match", "C12.R3", rf, typ.func if typ is not None else None, "re.search", expect="type part")
+    # R3 (renderer): a destination that cannot be a path is a failure and needs its one warning
+    f = sx.func("SphinxRenderer.render_link_path")
+    iff = find_node(f, lambda n: isinstance(n, ast.If) and isinstance(n.test, ast.Compare) and isinstance(n.test.left, ast.Constant) and isinstance(n.test.left.value, str) and set(n.test.left.value) <= IMPOSSIBLE_PATH_CHARS and n.test.left.value)
+    w = next((x for x in iff.body if isinstance(x, ast.Expr) and isinstance(x.value, ast.Call) and xref_missing_warning(x.value, f)), None) if iff is not None else None
+    add("c12-unusable-path-silent", "C12.R3", sx, w, "pass", expect="unusable")
+    f = sx.func("SphinxRenderer.render_link_project")
+    h = find_node(f, lambda n: isinstance(n, ast.ExceptHandler))
+    if h is not None and iff is not None:
+        # the failed lookup (exception) path gives up without warning
+        seg = "return self.render_link_url(token)"
+        add("c12-project-lookup-error-silent", "C12.R3", sx, h.body[-1], seg, expect="render_link_project")
+    else:
+        out.append(("c12-project-lookup-error-silent", "except handler not found"))
     return out
